@@ -121,13 +121,45 @@ def prior_description(facts, k=0):
 
 
 def query_value(facts, it, store, describe=None, prior=()):
-    """A Query with a symbolic (or fixed) describe option and an addressable description list holding `prior` (arbitrary
-    earlier descriptions): (store, ref, slot of the list)."""
+    """A Query with a symbolic (or fixed) describe option over an addressable description list holding `prior` (arbitrary
+    earlier descriptions): (store, ref of the Query, ref of the list).  The Query is what `query::query` itself builds from
+    (parsed text, database, options, the caller's list) - whatever fields it keeps them in; if that cannot be followed the
+    struct is assembled by field name."""
     from ..absint.stdmodels import Seq
     store, dref = it.fresh_slot(store, Seq(prior))
+    opt = Agg("adt", "query::Options", 0, "Options", (Sym("describe") if describe is None else Const(bool(describe)),))
+    qb = facts.fn("query::query")
+    if qb is not None:
+        padt = facts.adt("query::Parsed")
+        pv = Agg("adt", "query::Parsed", 0, "Parsed", tuple(Sym("source") if f["ty"].startswith("&") and "str" in f["ty"] else Sym("tree")
+                                                              for f in padt["variants"][0]["fields"])) if padt else Sym("parsed")
+        st1, pref = it.fresh_slot(store, pv)
+        args = []
+        for i in range(1, qb.arg_count + 1):
+            ty = qb.local_ty(i).replace(" ", "")
+            if "query::Parsed" in ty:
+                args.append(pref)
+            elif "db::Db" in ty:
+                args.append(Sym("db"))
+            elif ty.endswith("query::Options"):
+                args.append(opt)
+            elif "Vec<query::Description" in ty:
+                args.append(dref)
+            else:
+                args.append(TOP)
+        try:
+            outs = [o for o in it.run(qb, args, st1)]
+        except core.Undecided:
+            outs = []
+        rets = [o for o in outs if o.kind == "ret" and isinstance(o.value, Agg) and o.value.path == "query::Query"]
+        if rets and len(rets) == len(outs):
+            if len(rets) == 1:
+                st2, qref = it.fresh_slot(rets[0].store, rets[0].value)
+                return st2, qref, dref
+            # the constructor already looks at the flag: one Query per side
+            return [(it.fresh_slot(o.store, o.value), dref) for o in rets]
     adt = facts.adt("query::Query")
     names = [f["name"] for f in adt["variants"][0]["fields"]]
-    opt = Agg("adt", "query::Options", 0, "Options", (Sym("describe") if describe is None else Const(bool(describe)),))
     vals = {"source": Sym("source"), "db": Sym("db"), "options": opt, "descriptions": dref}
     q = Agg("adt", "query::Query", 0, "Query", tuple(vals.get(n, Sym("q." + n)) for n in names))
     store, qref = it.fresh_slot(store, q)
@@ -151,7 +183,14 @@ def run_eval(facts, tree, extra=None, budget=200000, with_query=False, describe=
     dom = EvalDomain(facts, tree, extra=extra)
     it = core.Interp(facts, dom, budget=budget)
     if with_query:
-        st, qref, dref = query_value(facts, it, {}, describe, prior)
+        qv = query_value(facts, it, {}, describe, prior)
+        if isinstance(qv, list):
+            outs = []
+            dref = qv[0][1]
+            for (st, qref), _ in qv:
+                outs.extend(it.run(body, [qref, node(0), Sym("bias")], st))
+            return dom, it, outs, dref
+        st, qref, dref = qv
         outs = it.run(body, [qref, node(0), Sym("bias")], st)
         return dom, it, outs, dref
     outs = it.run(body, [Sym("q"), node(0), Sym("bias")], {})
